@@ -593,6 +593,13 @@ func modeC05(e *Env) {
 				if id%5 == 0 {
 					atts = []AttemptPlan{defaultAttempt(), p, defaultAttempt()}
 				}
+				// schedule fuzzing: seeded pseudo-random delays at every hook point of the library (reader, parser,
+				// handler call, close), so that the same stop cause is seen under many interleavings
+				if rep > 0 || id%2 == 0 {
+					for k := range atts {
+						atts[k].HookFuzz = uint64(e.Seed)*7919 + uint64(id)*104729 + uint64(rep)*31 + 1
+					}
+				}
 				if id%4 == 1 && p.Fault != nil {
 					// the caller retries after its handler failed WITHOUT asking Error() in between (Stream already
 					// returned the error), and the retry is ended by the fault
